@@ -21,7 +21,7 @@ CHECKS = {
              "random-walks the full vocabulary with random spelling, under the canonical and the extended parser. Each "
              "document is parsed by the real library and TLC judges the projected result (spec/Trace_Doc.tla): no error, "
              "and ingredients, cookware, timers, inline quantities, sections/steps/text/numbers, metadata and servings "
-             "equal to the prediction.",
+             "equal to the prediction. The parser itself is also specified as a parser (spec/CookParser.tla, a transcription of src/parser over the tokens of CookLexer; TLC enumerates every string up to a bound over ten kernel alphabets x extension sets, checks the design invariants and prints the predicted events; for whole documents TLC lexes and parses the recorded text itself) and TLC judges the real PullParser events against it (spec/Trace_Parser.tla): clause RecipeReadAsSpecified - an input the specification reads without a diagnostic must be read exactly so (what the events say, not where).",
         design="6 (C01), 3.4, 3.5", technique="TLA+ generator+analysis model, TLC exhaustive kernels and simulation, replay into the parser, trace validation",
         note=DOC_NOTE),
     "C02": dict(
@@ -54,7 +54,7 @@ CHECKS = {
              "analysis report and SourceReport::write; TLC then judges every recorded execution (spec/Trace_Parse.tla, "
              "predicates of spec/CookSpans.tla): tokens tile from the documented front-matter offset, every span, "
              "fragment and label in bounds and on character boundaries, fragments equal the input slice, events ordered, "
-             "report renders. Token kinds are compared with the model's prediction as drift.",
+             "report renders. Token kinds are compared with the model's prediction as drift. The parser itself is also specified as a parser (spec/CookParser.tla, a transcription of src/parser over the tokens of CookLexer; TLC enumerates every string up to a bound over ten kernel alphabets x extension sets, checks the design invariants and prints the predicted events; for whole documents TLC lexes and parses the recorded text itself) and TLC judges the real PullParser events against it (spec/Trace_Parser.tla): clauses EventsLocatedInOrder, EventsBracketed on the recorded events; exact equality of every span and label with the specification is reported as drift.",
         design="6 (C04), 3.2", technique="TLA+ lexer model + TLC exhaustive short-string generation + trace validation of recorded spans",
         note=PARSE_NOTE),
     "C05": dict(
@@ -140,7 +140,7 @@ CHECKS = {
              "and predicts severity, stage, class and the byte span of the construct; TLC judges that such a diagnostic "
              "exists and that its first label touches the span. Validity <=> output and no error, parse errors suppress "
              "output and analysis diagnostics, analysis errors keep the output: invariants of CookAnalysis and clauses "
-             "judged on every record.",
+             "judged on every record. The parser itself is also specified as a parser (spec/CookParser.tla, a transcription of src/parser over the tokens of CookLexer; TLC enumerates every string up to a bound over ten kernel alphabets x extension sets, checks the design invariants and prints the predicted events; for whole documents TLC lexes and parses the recorded text itself) and TLC judges the real PullParser events against it (spec/Trace_Parser.tla): clauses SilentWhenSpecifiedSilent and DiagnosedAsSpecified (severity, class, label touching the specified one) for every input of the kernels, not only the cataloged defects.",
         design="6 (C07)", technique="TLA+ defect-injecting generator + TLC exhaustive kernel/simulation + trace validation of diagnostics",
         note=DOC_NOTE + " Replay of the defect kernel is stratified per defect class at the quick tier."),
     "C13": dict(
